@@ -157,6 +157,12 @@ pub fn openssl_ca(d: &Value, key: &KeyInfo) -> Result<Vec<u8>, String> {
 		let ext = s.build(&b.x509v3_context(None, None)).map_err(e)?;
 		b.append_extension(ext).map_err(e)?;
 	}
+	let nc_text: Vec<String> = d["ncText"].as_array().map(|a| a.iter().map(|x| x.as_str().unwrap_or("").to_string()).collect()).unwrap_or_default();
+	if !nc_text.is_empty() {
+		#[allow(deprecated)]
+		let ext = openssl::x509::X509Extension::new_nid(None, Some(&b.x509v3_context(None, None)), openssl::nid::Nid::NAME_CONSTRAINTS, &format!("critical,{}", nc_text.join(","))).map_err(e)?;
+		b.append_extension(ext).map_err(e)?;
+	}
 	if d["ski"].as_bool().unwrap_or(false) {
 		let ext = SubjectKeyIdentifier::new().build(&b.x509v3_context(None, None)).map_err(e)?;
 		b.append_extension(ext).map_err(e)?;
@@ -368,7 +374,7 @@ pub fn run(cert_cases: &str, import_cases: &str, out_path: &str, tier: &str) {
 		}
 		let origin = sval(c, "origin");
 		if origin == "openssl" {
-			let d = json!({"dn": dn, "ski": c["ski"], "pathlen": {"k": "none", "n": 0}, "ku": [5, 6], "sans": [], "serial": [0x11, 0x22],
+			let d = json!({"dn": dn, "ski": c["ski"], "pathlen": {"k": "none", "n": 0}, "ku": [5, 6], "sans": [], "serial": [0x11, 0x22], "ncText": c["ncText"], "ncExpect": c["ncExpect"],
 				"nb": {"y": 2020, "mo": 1, "d": 1, "h": 0, "mi": 0, "s": 0}, "na": {"y": 2030, "mo": 1, "d": 1, "h": 0, "mi": 0, "s": 0}});
 			let der = match openssl_ca(&d, &ca_key.info) {
 				Ok(x) => x,
